@@ -277,7 +277,7 @@ func checkC16(p *core.Program, r *core.Report) {
 		}
 	}
 	r.Floor("encoder field copies", 10)
-	r.Floor("decoder error sites", 6)
+	r.Floor("decoder error sites", 2)
 	r.Floor("index fields", 2)
 	// ---- number parser and convention
 	checkNumberCodec(p, r, eng, ix)
